@@ -7,6 +7,7 @@ mod io;
 mod io_gen;
 mod io_run;
 mod json;
+mod mc;
 mod miri_run;
 mod model;
 mod ops;
